@@ -101,7 +101,40 @@ type vImpl struct {
 	mu   sync.Mutex
 	log  []vHLog
 	gate map[string]chan struct{} // token -> released when the handler may return
+	hold bool                     // every handler waits for its token's gate (created on demand)
 	seq  *int64
+}
+
+// gateFor returns the gate of a token, creating it when handlers are held
+func (im *vImpl) gateFor(token string) chan struct{} {
+	im.mu.Lock()
+	defer im.mu.Unlock()
+	if im.gate == nil {
+		im.gate = map[string]chan struct{}{}
+	}
+	g, ok := im.gate[token]
+	if !ok && im.hold {
+		g = make(chan struct{})
+		im.gate[token] = g
+	}
+	return g
+}
+
+func (im *vImpl) release(token string) {
+	g := im.gateFor(token)
+	if g != nil {
+		select {
+		case <-g:
+		default:
+			close(g)
+		}
+	}
+}
+
+func (im *vImpl) peek() []vHLog {
+	im.mu.Lock()
+	defer im.mu.Unlock()
+	return append([]vHLog(nil), im.log...)
 }
 
 func (im *vImpl) take() []vHLog {
@@ -128,11 +161,8 @@ func vMkHandler(method string) methodHandler {
 		}
 		im.mu.Lock()
 		im.log = append(im.log, vHLog{Method: method, Token: in.CallId, Payload: in.Payload, Dir: in.Error, Peer: pk})
-		var gate chan struct{}
-		if im.gate != nil {
-			gate = im.gate[in.CallId]
-		}
 		im.mu.Unlock()
+		gate := im.gateFor(in.CallId)
 		if gate != nil {
 			<-gate
 		}
@@ -188,6 +218,7 @@ func vOutcomeCoq(payload []byte) string {
 
 // ---- endpoints
 type vSrvEnd struct {
+	seen int // cursor into impl's log, shared by the sessions of this server
 	s    *Server
 	key  credentials.StaticSizedPublicKey
 	tr   *vFakeTr
